@@ -954,4 +954,261 @@ theorem bid_round128_19_38_spec (qn xn : Nat) (C : Rs.U128) (hq : 19 ≤ qn) (hq
 example : (Code.bid_round128_19_38 35 1 ⟨wU (10 ^ 35 - 5) 0, wU (10 ^ 35 - 5) 1⟩ false false false false false).toOption =
     some (⟨wU (10 ^ 33) 0, wU (10 ^ 33) 1⟩, true, true, false, false, false) := by decide +kernel
 
+/-! ### bid_round192_39_57 -/
+
+/-- split every `if` of the goal, use the case hypothesis on the other side, close the leaves by `rfl` -/
+macro "paths" : tactic =>
+  `(tactic| ((repeat' (split <;> rename_i hh <;> try simp only [hh, if_true, if_false, Bool.false_eq_true])) <;> rfl))
+
+theorem tbl192_ok (t : List Nat) (i : Nat) (h : 3 * i + 2 < t.length) (hi : i < 2 ^ 64) :
+    tbl192 t (UInt64.ofNat i) =
+      .ok ⟨UInt64.ofNat (tw t 3 i 0), UInt64.ofNat (tw t 3 i 1), UInt64.ofNat (tw t 3 i 2)⟩ := by
+  unfold tbl192 tw
+  rw [ofNat_toNat_lt i hi, List.getElem?_eq_getElem (by omega : 3 * i < t.length),
+    List.getElem?_eq_getElem (by omega : 3 * i + 1 < t.length), List.getElem?_eq_getElem h]
+  simp only [List.getD_eq_getElem?_getD]
+  rw [show i * 3 + 0 = 3 * i from by omega, show i * 3 + 1 = 3 * i + 1 from by omega,
+    show i * 3 + 2 = 3 * i + 2 from by omega,
+    List.getElem?_eq_getElem (by omega : 3 * i < t.length),
+    List.getElem?_eq_getElem (by omega : 3 * i + 1 < t.length), List.getElem?_eq_getElem h]
+  rfl
+
+theorem tbl256_ok (t : List Nat) (i : Nat) (h : 4 * i + 3 < t.length) (hi : i < 2 ^ 64) :
+    tbl256 t (UInt64.ofNat i) =
+      .ok ⟨UInt64.ofNat (tw t 4 i 0), UInt64.ofNat (tw t 4 i 1), UInt64.ofNat (tw t 4 i 2), UInt64.ofNat (tw t 4 i 3)⟩ := by
+  unfold tbl256 tw
+  rw [ofNat_toNat_lt i hi, List.getElem?_eq_getElem (by omega : 4 * i < t.length),
+    List.getElem?_eq_getElem (by omega : 4 * i + 1 < t.length),
+    List.getElem?_eq_getElem (by omega : 4 * i + 2 < t.length), List.getElem?_eq_getElem h]
+  simp only [List.getD_eq_getElem?_getD]
+  rw [show i * 4 + 0 = 4 * i from by omega, show i * 4 + 1 = 4 * i + 1 from by omega,
+    show i * 4 + 2 = 4 * i + 2 from by omega, show i * 4 + 3 = 4 * i + 3 from by omega,
+    List.getElem?_eq_getElem (by omega : 4 * i < t.length),
+    List.getElem?_eq_getElem (by omega : 4 * i + 1 < t.length),
+    List.getElem?_eq_getElem (by omega : 4 * i + 2 < t.length), List.getElem?_eq_getElem h]
+  rfl
+
+def n192 (c : Rs.U192) : RH.U192 := ⟨c.w0.toNat, c.w1.toNat, c.w2.toNat⟩
+def u192 (c : RH.U192) : Rs.U192 := ⟨UInt64.ofNat c.w0, UInt64.ofNat c.w1, UInt64.ofNat c.w2⟩
+def n384 (c : Rs.U384) : RH.U384 := ⟨c.w0.toNat, c.w1.toNat, c.w2.toNat, c.w3.toNat, c.w4.toNat, c.w5.toNat⟩
+
+def out192 (o : RH.U192 × Bool) (fl : RH.Ind) : Rs.U192 × Bool × Bool × Bool × Bool × Bool :=
+  (u192 o.1, o.2, fl.midLtEven, fl.midGtEven, fl.inexLtMid, fl.inexGtMid)
+
+theorem len_TEN2K256 : BID_TEN2K256.length = 156 := by decide +kernel
+theorem len_KX192 : BID_KX192.length = 168 := by decide +kernel
+theorem len_TRUNC192 : BID_TEN2MXTRUNC192.length = 168 := by decide +kernel
+theorem len_MIDPOINT192 : BID_MIDPOINT192.length = 60 := by decide +kernel
+theorem w_KX192 : C02RoundHelpers.allW BID_KX192 = true := by decide +kernel
+
+/-- **Bridge for `bid_round192_39_57`.** -/
+theorem bid_round192_39_57_eq (qn xn : Nat) (C : Rs.U192) (hq : 39 ≤ qn) (hq' : qn ≤ 57) (hx : 1 ≤ xn) (hxq : xn + 1 ≤ qn) :
+    Code.bid_round192_39_57 (Int32.ofNat qn) (Int32.ofNat xn) C false false false false false =
+      .ok (u192 (RH.round192 qn xn (n192 C)).cstar, (RH.round192 qn xn (n192 C)).incrExp,
+        (RH.round192 qn xn (n192 C)).ind.midLtEven, (RH.round192 qn xn (n192 C)).ind.midGtEven,
+        (RH.round192 qn xn (n192 C)).ind.inexLtMid, (RH.round192 qn xn (n192 C)).ind.inexGtMid) := by
+  unfold Code.bid_round192_39_57
+  extract_lets qI xI C0 bF P0 Cs0 tmp0 sh0 C1 ind1 t1 ind2 t4 val2 bT jpOvf jpGt val1 fA fB CsA CsB jpMul tmpA jpAdd1 jpAdd2
+  have hind2 : ind2 = UInt64.ofNat (qn - xn) := idx_sub qn xn (by omega) (by omega)
+  have hind1 : ind1 = UInt64.ofNat (xn - 1) := idx_sub_one xn hx (by omega)
+  have hn1 : 1 ≤ qn - xn := by omega
+  have hn2 : qn - xn ≤ 56 := by omega
+  have hOvf : ∀ r lt gt ilt igt Cs, jpOvf r lt gt ilt igt Cs =
+      .ok (out192 (RH.r192Ovf qn xn (n192 Cs)) ⟨lt, gt, ilt, igt⟩) := by
+    intro r lt gt ilt igt Cs
+    have e0 : UInt64.ofInt (toI (0 : Nat)) = UInt64.ofNat 0 := rfl
+    have e18 : UInt64.ofInt (toI (18 : Nat)) = UInt64.ofNat 18 := rfl
+    have e19 : UInt64.ofInt (toI (19 : Nat)) = UInt64.ofNat 19 := rfl
+    simp only [jpOvf, val2, t4, hind2, bT, bF, e0, e18, e19]
+    unfold out192 RH.r192Ovf n192
+    generalize qn - xn = n at *
+    have hnn : (UInt64.ofNat n).toNat = n := ofNat_toNat_lt n (by omega)
+    have c19 : decide (UInt64.ofNat n ≤ 19) = decide (n ≤ 19) := by rw [u64_dle, hnn]; rfl
+    have c38 : decide (UInt64.ofNat n ≤ 38) = decide (n ≤ 38) := by rw [u64_dle, hnn]; rfl
+    have c20 : (UInt64.ofNat n == 20) = (n == 20) := by rw [u64_beq, hnn]; rfl
+    have c39 : (UInt64.ofNat n == 39) = (n == 39) := by rw [u64_beq, hnn]; rfl
+    simp only [c19, c20, c38, c39]
+    by_cases h19 : n ≤ 19
+    · have e1 : UInt64.ofNat n - 1 = UInt64.ofNat (n - 1) := ofNat_sub_lit n 1 (by omega) (by omega)
+      have l7 := tbl64_ok BID_TEN2K64 n (by simp [BID_TEN2K64]; omega) (by omega)
+      have l8 := tbl64_ok BID_TEN2K64 (n - 1) (by simp [BID_TEN2K64]; omega) (by omega)
+      have b7 := C02RoundHelpers.tw_lt C02RoundHelpers.w_TEN2K64 1 n 0
+      simp only [h19, decide_true, if_true, e1, l7, l8, bind, Except.bind, pure, Except.pure, ite_ok_false]
+      simp only [u64_beq, Bool.decide_eq_true, ofNat_toNat_lt _ b7, UInt64.toNat_zero]
+      split <;> simp [u192, UInt64.ofNat_toNat]
+    · by_cases h20 : n = 20
+      · subst h20
+        have l7 := tbl128_ok BID_TEN2K128 0 (by simp [BID_TEN2K128]) (by omega)
+        have l8 := tbl64_ok BID_TEN2K64 19 (by simp [BID_TEN2K64]) (by omega)
+        have b0 := C02RoundHelpers.tw_lt C02RoundHelpers.w_TEN2K128 2 0 0
+        have b1 := C02RoundHelpers.tw_lt C02RoundHelpers.w_TEN2K128 2 0 1
+        simp only [show ¬ (20 ≤ 19) from by omega, decide_false, if_false, BEq.rfl, if_true, l7, l8, bind, Except.bind, pure,
+          Except.pure, ite_ok_false, Bool.false_eq_true]
+        simp only [u64_beq, Bool.decide_eq_true, ofNat_toNat_lt _ b0, ofNat_toNat_lt _ b1, UInt64.toNat_zero]
+        split <;> simp [u192, UInt64.ofNat_toNat]
+      · have hb20 : (n == 20) = false := by simp [h20]
+        by_cases h38 : n ≤ 38
+        · have e20 : UInt64.ofNat n - 20 = UInt64.ofNat (n - 20) := ofNat_sub_lit n 20 (by omega) (by omega)
+          have e21 : UInt64.ofNat n - 21 = UInt64.ofNat (n - 21) := ofNat_sub_lit n 21 (by omega) (by omega)
+          have l7 := tbl128_ok BID_TEN2K128 (n - 20) (by simp [BID_TEN2K128]; omega) (by omega)
+          have l8 := tbl128_ok BID_TEN2K128 (n - 21) (by simp [BID_TEN2K128]; omega) (by omega)
+          have b0 := C02RoundHelpers.tw_lt C02RoundHelpers.w_TEN2K128 2 (n - 20) 0
+          have b1 := C02RoundHelpers.tw_lt C02RoundHelpers.w_TEN2K128 2 (n - 20) 1
+          simp only [h19, hb20, h38, decide_true, decide_false, if_true, if_false, e20, e21, l7, l8, bind, Except.bind, pure,
+            Except.pure, ite_ok_false, Bool.false_eq_true]
+          simp only [u64_beq, Bool.decide_eq_true, ofNat_toNat_lt _ b0, ofNat_toNat_lt _ b1, UInt64.toNat_zero]
+          split <;> simp [u192, UInt64.ofNat_toNat]
+        · by_cases h39 : n = 39
+          · subst h39
+            have l7 := tbl256_ok BID_TEN2K256 0 (by rw [len_TEN2K256]; omega) (by omega)
+            have l8 := tbl128_ok BID_TEN2K128 18 (by simp [BID_TEN2K128]) (by omega)
+            have b0 := C02RoundHelpers.tw_lt C02RoundHelpers.w_TEN2K256 4 0 0
+            have b1 := C02RoundHelpers.tw_lt C02RoundHelpers.w_TEN2K256 4 0 1
+            have b2 := C02RoundHelpers.tw_lt C02RoundHelpers.w_TEN2K256 4 0 2
+            simp only [show ¬ (39 ≤ 19) from by omega, show ¬ (39 ≤ 38) from by omega, show (39 == 20) = false from rfl,
+              decide_false, if_false, BEq.rfl, if_true, l7, l8, bind, Except.bind, pure, Except.pure, ite_ok_false,
+              Bool.false_eq_true]
+            simp only [u64_beq, Bool.decide_eq_true, ofNat_toNat_lt _ b0, ofNat_toNat_lt _ b1, ofNat_toNat_lt _ b2,
+              UInt64.toNat_zero]
+            split <;> simp [u192, UInt64.ofNat_toNat]
+          · have hb39 : (n == 39) = false := by simp [h39]
+            have e39 : UInt64.ofNat n - 39 = UInt64.ofNat (n - 39) := ofNat_sub_lit n 39 (by omega) (by omega)
+            have e40 : UInt64.ofNat n - 40 = UInt64.ofNat (n - 40) := ofNat_sub_lit n 40 (by omega) (by omega)
+            have l7 := tbl256_ok BID_TEN2K256 (n - 39) (by rw [len_TEN2K256]; omega) (by omega)
+            have l8 := tbl256_ok BID_TEN2K256 (n - 40) (by rw [len_TEN2K256]; omega) (by omega)
+            have b0 := C02RoundHelpers.tw_lt C02RoundHelpers.w_TEN2K256 4 (n - 39) 0
+            have b1 := C02RoundHelpers.tw_lt C02RoundHelpers.w_TEN2K256 4 (n - 39) 1
+            have b2 := C02RoundHelpers.tw_lt C02RoundHelpers.w_TEN2K256 4 (n - 39) 2
+            simp only [h19, hb20, h38, hb39, decide_false, if_false, e39, e40, l7, l8, bind, Except.bind, pure,
+              Except.pure, ite_ok_false, Bool.false_eq_true]
+            simp only [u64_beq, Bool.decide_eq_true, ofNat_toNat_lt _ b0, ofNat_toNat_lt _ b1, ofNat_toNat_lt _ b2,
+              UInt64.toNat_zero]
+            split <;> simp [u192, UInt64.ofNat_toNat]
+  have hGt : ∀ r Cs, jpGt r Cs = .ok (out192 (RH.r192Ovf qn xn (n192 Cs)) ⟨false, true, false, false⟩) := by
+    intro r Cs; simp only [jpGt, hOvf, bT, bF]
+  have hi : xn - 1 < 56 := by omega
+  obtain ⟨⟨hs1, hs2, hmsk, hhlf, hT, hK, hb⟩, hM, hKlt⟩ := C02RoundHelpers.tbl192 (xn - 1) hi
+  have hs : tw BID_EX192M192 1 (xn - 1) 0 < 2 ^ 31 := by omega
+  have lK := tbl192_ok BID_KX192 (xn - 1) (by rw [len_KX192]; omega) (by omega)
+  have lE := tbl32_ok BID_EX192M192 (xn - 1) (by simp [BID_EX192M192]; omega) (by omega)
+  have lM := tbl64_ok BID_MASK192 (xn - 1) (by simp [BID_MASK192]; omega) (by omega)
+  have lH := tbl64_ok BID_HALF192 (xn - 1) (by simp [BID_HALF192]; omega) (by omega)
+  have lT := tbl192_ok BID_TEN2MXTRUNC192 (xn - 1) (by rw [len_TRUNC192]; omega) (by omega)
+  have bT0 := C02RoundHelpers.tw_lt C02RoundHelpers.w_TRUNC192 3 (xn - 1) 0
+  have bT1 := C02RoundHelpers.tw_lt C02RoundHelpers.w_TRUNC192 3 (xn - 1) 1
+  have bT2 := C02RoundHelpers.tw_lt C02RoundHelpers.w_TRUNC192 3 (xn - 1) 2
+  have bH := C02RoundHelpers.tw_lt C02RoundHelpers.w_HALF192 1 (xn - 1) 0
+  have bM : tw BID_MASK192 1 (xn - 1) 0 < 2 ^ 64 := by
+    have := C02RoundHelpers.pow_le_W _ hs2; omega
+  have bK0 := C02RoundHelpers.tw_lt w_KX192 3 (xn - 1) 0
+  have bK1 := C02RoundHelpers.tw_lt w_KX192 3 (xn - 1) 1
+  have bK2 := C02RoundHelpers.tw_lt w_KX192 3 (xn - 1) 2
+  have cv18 : decide (val1 ≤ 18) = decide (xn - 1 ≤ 18) := by
+    simp only [val1, t1, hind1]; rw [u64_dle, ofNat_toNat_lt _ (by omega)]; rfl
+  have cv37 : decide (val1 ≤ 37) = decide (xn - 1 ≤ 37) := by
+    simp only [val1, t1, hind1]; rw [u64_dle, ofNat_toNat_lt _ (by omega)]; rfl
+  have hMul : ∀ r C' tmp, jpMul r C' tmp =
+      .ok (out192 (RH.r192Ovf qn xn (RH.r192Midpoint (xn - 1)
+            (RH.r192Split (xn - 1) ((n192 C').val * tv BID_KX192 3 (xn - 1))).1
+            (RH.r192Split (xn - 1) ((n192 C').val * tv BID_KX192 3 (xn - 1))).2
+            (RH.r192Inexact (xn - 1) (RH.r192Split (xn - 1) ((n192 C').val * tv BID_KX192 3 (xn - 1))).2)).1)
+          (RH.r192Midpoint (xn - 1)
+            (RH.r192Split (xn - 1) ((n192 C').val * tv BID_KX192 3 (xn - 1))).1
+            (RH.r192Split (xn - 1) ((n192 C').val * tv BID_KX192 3 (xn - 1))).2
+            (RH.r192Inexact (xn - 1) (RH.r192Split (xn - 1) ((n192 C').val * tv BID_KX192 3 (xn - 1))).2)).2) := by
+    intro r C' tmp
+    simp (config := {zeta := false}) only [jpMul, hind1, lK, lE, lM, lH, lT, cv18, cv37]
+    simp (config := {zeta := false}) only [bind, Except.bind, mul_192x192_to_384_ok]
+    extract_lets +onlyGivenNames P384 shift jpSplit
+    have hSplit : ∀ r fstar Cstar, jpSplit r fstar Cstar =
+        .ok (out192 (RH.r192Ovf qn xn (RH.r192Midpoint (xn - 1) (n192 Cstar) (n384 fstar)
+              (RH.r192Inexact (xn - 1) (n384 fstar))).1)
+            (RH.r192Midpoint (xn - 1) (n192 Cstar) (n384 fstar) (RH.r192Inexact (xn - 1) (n384 fstar))).2) := by
+      intro r fstar Cstar
+      simp (config := {zeta := false}) only [jpSplit]
+      extract_lets Cd1 Cd2 Cd3 jpMid tm1 tm2 tm3
+      have hMid : ∀ r ilt igt tmp, jpMid r ilt igt tmp =
+          .ok (out192 (RH.r192Ovf qn xn (RH.r192Midpoint (xn - 1) (n192 Cstar) (n384 fstar) ⟨false, false, ilt, igt⟩).1)
+            (RH.r192Midpoint (xn - 1) (n192 Cstar) (n384 fstar) ⟨false, false, ilt, igt⟩).2) := by
+        intro r ilt igt tmp
+        simp only [jpMid, pure, Except.pure, ite_ok_true, ite_ok_false, hOvf, hGt, bT, bF, Cd1, Cd2, Cd3]
+        unfold RH.r192Midpoint n192 n384
+        simp only [u64_beq, u64_dle, u64_dlt, ofNat_toNat_lt _ bT0, ofNat_toNat_lt _ bT1, ofNat_toNat_lt _ bT2,
+          UInt64.toNat_and, UInt64.toNat_zero, UInt64.toNat_one, Bool.decide_eq_true, u64_sub,
+          show (18446744073709551615 : UInt64).toNat = 18446744073709551615 from rfl]
+        paths
+      simp only [pure, Except.pure, ite_ok_true, ite_ok_false, hMid, bT, bF, tm1, tm2, tm3]
+      unfold RH.r192Inexact RH.gtT192 n384
+      simp only [u64_beq, u64_bne, u64_dle, u64_dlt, ofNat_toNat_lt _ bT0, ofNat_toNat_lt _ bT1, ofNat_toNat_lt _ bT2,
+        ofNat_toNat_lt _ bH, UInt64.toNat_zero, Bool.decide_eq_true, u64_sub, GT.gt, decide_eq_true_eq, Bool.or_assoc]
+      paths
+    simp only [hSplit]
+    have hPn : v192 C' * v192 ⟨UInt64.ofNat (tw BID_KX192 3 (xn - 1) 0), UInt64.ofNat (tw BID_KX192 3 (xn - 1) 1),
+        UInt64.ofNat (tw BID_KX192 3 (xn - 1) 2)⟩ = (n192 C').val * tv BID_KX192 3 (xn - 1) := by
+      unfold v192 n192 RH.U192.val
+      rw [C02RoundHelpers.tv3]
+      simp only [ofNat_toNat_lt _ bK0, ofNat_toNat_lt _ bK1, ofNat_toNat_lt _ bK2]
+    have d384 : (default : Rs.U384) = ⟨0, 0, 0, 0, 0, 0⟩ := rfl
+    have d192 : (default : Rs.U192) = ⟨0, 0, 0⟩ := rfl
+    have sc := shift_cast _ hs
+    have scs := shift_cast_sub (tw BID_EX192M192 1 (xn - 1) 0) (by omega)
+    have shr := fun a => u64_shr a _ (by omega : tw BID_EX192M192 1 (xn - 1) 0 < 2 ^ 64)
+    have shl := fun a => u64_shl a _ (by omega : 64 - tw BID_EX192M192 1 (xn - 1) 0 < 2 ^ 64)
+    unfold RH.r192Split n192 n384
+    simp only [P384, hPn, shift, sc, scs, fA, fB, CsA, CsB, Cs0, P0, d384, d192, UInt64.toNat_or, UInt64.toNat_and, shr, shl,
+      wU_toNat, ofNat_toNat_lt _ bM, UInt64.toNat_zero, decide_eq_true_eq]
+    paths
+  rw [C02RoundHelpers.round192_unfold]
+  simp only [Nat.add_sub_cancel]
+  unfold RH.r192AddMid
+  by_cases hi18 : xn - 1 ≤ 18
+  · have lMid := tbl64_ok BID_MIDPOINT64 (xn - 1) (by simp [BID_MIDPOINT64]; omega) (by omega)
+    have bMid := C02RoundHelpers.tw_lt C02RoundHelpers.w_MIDPOINT64 1 (xn - 1) 0
+    simp only [cv18, hi18, decide_true, if_true, hind1, lMid, bind, Except.bind, hMul, tmpA, C1, C0]
+    simp only [n192, u64_dlt, u64_beq, u64_add, ofNat_toNat_lt _ bMid, UInt64.toNat_one, UInt64.toNat_zero,
+      decide_eq_true_eq]
+    paths
+  · by_cases hi37 : xn - 1 ≤ 37
+    · have e19 : UInt64.ofNat (xn - 1) - 19 = UInt64.ofNat (xn - 1 - 19) := ofNat_sub_lit _ 19 (by omega) (by omega)
+      have lMid := tbl128_ok BID_MIDPOINT128 (xn - 1 - 19) (by simp [BID_MIDPOINT128]; omega) (by omega)
+      have bMid0 := C02RoundHelpers.tw_lt C02RoundHelpers.w_MIDPOINT128 2 (xn - 1 - 19) 0
+      have bMid1 := C02RoundHelpers.tw_lt C02RoundHelpers.w_MIDPOINT128 2 (xn - 1 - 19) 1
+      simp only [cv18, cv37, hi18, hi37, decide_true, decide_false, if_true, if_false, Bool.false_eq_true, hind1, e19, lMid,
+        bind, Except.bind, jpAdd1, hMul, tmpA, C1, C0]
+      simp only [n192, u64_dlt, u64_beq, u64_add, ofNat_toNat_lt _ bMid0, ofNat_toNat_lt _ bMid1, UInt64.toNat_one,
+        UInt64.toNat_zero, decide_eq_true_eq]
+      paths
+    · have e38 : UInt64.ofNat (xn - 1) - 38 = UInt64.ofNat (xn - 1 - 38) := ofNat_sub_lit _ 38 (by omega) (by omega)
+      have lMid := tbl192_ok BID_MIDPOINT192 (xn - 1 - 38) (by rw [len_MIDPOINT192]; omega) (by omega)
+      have bMid0 := C02RoundHelpers.tw_lt C02RoundHelpers.w_MIDPOINT192 3 (xn - 1 - 38) 0
+      have bMid1 := C02RoundHelpers.tw_lt C02RoundHelpers.w_MIDPOINT192 3 (xn - 1 - 38) 1
+      have bMid2 := C02RoundHelpers.tw_lt C02RoundHelpers.w_MIDPOINT192 3 (xn - 1 - 38) 2
+      simp only [cv18, cv37, hi18, hi37, decide_false, if_false, Bool.false_eq_true, hind1, e38, lMid,
+        bind, Except.bind, jpAdd2, hMul, tmpA, C1, C0]
+      simp only [n192, u64_dlt, u64_beq, u64_add, ofNat_toNat_lt _ bMid0, ofNat_toNat_lt _ bMid1, ofNat_toNat_lt _ bMid2,
+        UInt64.toNat_one, UInt64.toNat_zero, decide_eq_true_eq]
+      paths
+
+
+/-- **`bid_round192_39_57` as translated meets the specification** (`39 ≤ q ≤ 57`, `1 ≤ x ≤ q − 1`, `C < 10^q`). -/
+theorem bid_round192_39_57_spec (qn xn : Nat) (C : Rs.U192) (hq : 39 ≤ qn) (hq' : qn ≤ 57) (hx : 1 ≤ xn)
+    (hxq : xn + 1 ≤ qn) (hC : v192 C < 10 ^ qn) :
+    ∃ (cs : Rs.U192) (incr lt gt ilt igt : Bool),
+      Code.bid_round192_39_57 (Int32.ofNat qn) (Int32.ofNat xn) C false false false false false =
+        .ok (cs, incr, lt, gt, ilt, igt) ∧
+      C02RoundHelpers.Spec qn xn (v192 C) (v192 cs) incr ⟨lt, gt, ilt, igt⟩ := by
+  have hv : (n192 C).val = v192 C := rfl
+  obtain ⟨hs, hb0, hb1, hb2⟩ := C02RoundHelpers.round192_spec qn xn (n192 C) hq hq' hx hxq C.w0.toNat_lt C.w1.toNat_lt
+    C.w2.toNat_lt (by rw [hv]; exact hC)
+  refine ⟨_, _, _, _, _, _, bid_round192_39_57_eq qn xn C hq hq' hx hxq, ?_⟩
+  have : v192 (u192 (RH.round192 qn xn (n192 C)).cstar) = (RH.round192 qn xn (n192 C)).cstar.val := by
+    unfold v192 u192 RH.U192.val
+    simp only [ofNat_toNat_lt _ hb0, ofNat_toNat_lt _ hb1, ofNat_toNat_lt _ hb2]
+  rw [this, ← hv]
+  exact hs
+
+-- q = 40, x = 39 (rounding to one digit): 95·10^38 → 10 → replaced by 1, incr_exp; through the translated routine
+example : (Code.bid_round192_39_57 40 39 ⟨wU (95 * 10 ^ 38) 0, wU (95 * 10 ^ 38) 1, wU (95 * 10 ^ 38) 2⟩
+    false false false false false).toOption = some (⟨1, 0, 0⟩, true, true, false, false, false) := by decide +kernel
+
 end Dec.C02GenRound
